@@ -1,11 +1,12 @@
 (** * C06 — On-disk format is classic Whisper and interoperates with the reference reader.
     Byte-level theorems about [encode_image] (what a synced file holds) and [open_image] (what
-    Open reads).  The agreement of the two readers on the same bytes is checked on every run by
-    running whispertool, the real go-whisper and both reader models on files written by either
-    library (its statement as a theorem relating [gw_fetch] and [fetch_from_archive] is in
-    Proofs/ReaderProofs.v when present; see DESIGN.md). *)
+    Open reads), and the agreement of the reference reader ([gw_fetch], a transcription of
+    go-whisper's Fetch for the classic format, validated against the real go-whisper on every run)
+    with whispertool's reader on the same archives. *)
+From Coq Require Import Sorting.Sorted.
 From WT Require Import Base.Wrap Base.ListX Base.Bytes Model.Time Model.Ring Model.Update Model.Codec Model.Handle
-  Model.FileImage Proofs.CodecProofs Proofs.ImageProofs.
+  Model.FileImage Model.GoWhisperRef Proofs.TimeProofs Proofs.RingProofs Proofs.FetchProofs
+  Proofs.CodecProofs Proofs.ImageProofs Proofs.ReaderProofs.
 
 (** total length: header (16 + 12 per archive) + 12 bytes per slot *)
 Theorem C06_file_length h arcs :
@@ -34,3 +35,34 @@ Theorem C06_open_inverts_layout h arcs :
   open_image (encode_image h arcs) = Some (h, arcs).
 Proof. exact (open_image_encode h arcs). Qed.
 Print Assumptions C06_open_inverts_layout.
+
+(** the two readers agree: for every list of well-formed rings with strictly increasing retentions
+    whose slot-0 timestamps are 0 (never written) or aligned instants, every clock of the domain and
+    every window that is not degenerate on a never-written archive, go-whisper's Fetch returns
+    "no series" exactly when whispertool does, and otherwise the very same series (bounds, step,
+    every value) *)
+Theorem C06_readers_agree arcs maxret from until now :
+  arcs <> [] -> Forall wf_arc arcs -> Forall base_ok arcs ->
+  StronglySorted (fun x y => period x < period y) arcs ->
+  (forall d, maxret = period (last arcs d)) ->
+  maxret <= now -> Forall (fun a => now + 2 * a_step a < TMAX) arcs ->
+  0 <= from -> from <= until -> until < 2^32 ->
+  (forall a, In a arcs -> base_interval a = 0 ->
+     gw_interval (a_step a) (Z.max from (now - maxret)) <> gw_interval (a_step a) (Z.min until now)) ->
+  match gw_fetch arcs maxret from until now with
+  | GwErr => False
+  | GwNone => fetch_from_archive arcs ArchiveIDBest from until now = FNone
+  | GwSeries s => fetch_from_archive arcs ArchiveIDBest from until now = FSeries s
+  end.
+Proof. exact (gw_eq_wt_best arcs maxret from until now). Qed.
+Print Assumptions C06_readers_agree.
+
+(** archive level: the slot range and the stale-lap elimination coincide *)
+Theorem C06_archive_readers_agree arcs id a from until now :
+  0 <= id -> nth_error arcs (Z.to_nat id) = Some a -> wf_arc a -> base_ok a ->
+  period a <= now -> now + 2 * a_step a < TMAX ->
+  now - period a <= from -> from <= until -> until <= now ->
+  (base_interval a = 0 -> gw_interval (a_step a) from <> gw_interval (a_step a) until) ->
+  fetch_from_archive arcs id from until now = FSeries (gw_fetch_archive a from until).
+Proof. exact (gw_archive_eq_wt arcs id a from until now). Qed.
+Print Assumptions C06_archive_readers_agree.
